@@ -1,6 +1,8 @@
 import Firebolt.Spec.Route
 import Firebolt.Generated.Source
 import Firebolt.Expected.Source
+import Firebolt.Generated.Closure
+import Firebolt.Expected.Closure
 /-!
 # C11 — Messages are routed to exactly the subscribed source and nodes
 
@@ -195,5 +197,9 @@ theorem source_exGetSource : GeneratedSrc.exGetSource = ExpectedSrc.exGetSource 
 theorem source_ctxSendMessage : GeneratedSrc.ctxSendMessage = ExpectedSrc.ctxSendMessage := by rfl
 theorem source_ctxAckMessage : GeneratedSrc.ctxAckMessage = ExpectedSrc.ctxAckMessage := by rfl
 theorem source_ctxConfigureMessaging : GeneratedSrc.ctxConfigureMessaging = ExpectedSrc.ctxConfigureMessaging := by rfl
+
+/-! ### influence closure: the pinned functions, and every function of the repository that writes a struct field or package
+variable they read, are unchanged (digests regenerated from /repo on every run; a difference names the functions) -/
+theorem closure_unchanged : GeneratedClo.C11 = ExpectedClo.C11 := by rfl
 
 end Firebolt.C11
